@@ -49,6 +49,7 @@ Inductive weff :=
 | EAcked (pi i : nat) (e : ev)                 (* result handler accepted *)
 | ERejected (pi i : nat) (e : option ev)       (* notify(EventRejectedEvent(listener, e)) *)
 | EEpipe (pi i : nat)
+| EWriteError (pi : nat)                       (* dispatch(): OSError from _dispatchEvent, logger.error *)
 | ERaise                                       (* an exception leaves the operation *)
 | EInapplicable.
 
@@ -183,7 +184,7 @@ Definition conv_sout (pi : nat) (ser pser : Z) (t : etype) (o : sout) : list wef
   match o with
   | SSent i e => [ESent pi i e ser pser t]
   | SEpipe i => [EEpipe pi i]
-  | SRaise => [ERaise]
+  | SRaise => [EWriteError pi]    (* caught by dispatch(), which logs it and re-buffers the event *)
   | _ => []
   end.
 
@@ -195,9 +196,9 @@ Definition dispatch_event (w : world) (pi : nat) (e : ev) (ws : list wres) : wor
     | Some ser, Some pser =>
       let '(procs', o, ok) := dispatch_from 0 (pl_procs p) e (envelope ser pser pi (ei_type x)) ws in
       let p' := mkPool (pl_subs p) (pl_bufsize p) (pl_buffer p) (pl_serial p) procs' in
-      let raised := existsb (fun x => match x with SRaise => true | _ => false end) o in
-      (upd_pool w pi p', flat_map (conv_sout pi ser pser (ei_type x)) o,
-       if raised then None else Some ok)
+      (* an OSError other than EPIPE/EAGAIN leaves _dispatchEvent (dispatch_from: SRaise, not sent);
+         dispatch() catches it, logs it and goes on with ok = False *)
+      (upd_pool w pi p', flat_map (conv_sout pi ser pser (ei_type x)) o, Some ok)
     | _, _ => (w, [ERaise], None)                 (* KeyError *)
     end
   | _, _ => (w, [ERaise], None)
@@ -217,7 +218,7 @@ Fixpoint dispatch_loop (fuel : nat) (w : world) (pi : nat) (wss : list (list wre
         let w0 := upd_pool w pi (mkPool (pl_subs p) (pl_bufsize p) rest (pl_serial p) (pl_procs p)) in
         let '(w1, o1, r) := dispatch_event w0 pi e (hd [] wss) in
         match r with
-        | None => (w1, o1)                          (* the exception propagates; event already popped *)
+        | None => (w1, o1)                          (* KeyError: not an OSError, propagates *)
         | Some true =>
           let '(w2, o2) := dispatch_loop f w1 pi (tl wss) in (w2, o1 ++ o2)
         | Some false =>
@@ -405,6 +406,7 @@ Definition weff_eqb (a b : weff) : bool :=
   | EAcked p i e, EAcked q j f => Nat.eqb p q && Nat.eqb i j && (e =? f)
   | ERejected p i e, ERejected q j f => Nat.eqb p q && Nat.eqb i j && option_eqb Z.eqb e f
   | EEpipe p i, EEpipe q j => Nat.eqb p q && Nat.eqb i j
+  | EWriteError p, EWriteError q => Nat.eqb p q
   | ERaise, ERaise | EInapplicable, EInapplicable => true
   | _, _ => false
   end.
